@@ -144,3 +144,106 @@ def check_database(chk, exe, db, dbdir, grid, fstride, label):
     for n in names[:2] + [n for n in names if len(spec[n]) > 60][:1]:
         chk.sample({'zone': n, 'db': db, 'first_pieces': spec[n][:4], 'npieces': len(spec[n])})
     return impl, spec, names
+
+
+# --------------------------------------------------------------------------
+# wall-clock resolution (C07; reused by C04 for the Python twin)
+# --------------------------------------------------------------------------
+MAXOFF = 57600
+
+
+def wall_windows(pieces, rnd, nrandom, halfwidth=200 * 60, full=False):
+    """windows of wall time (seconds from 2000-01-01 on the local clock) to sweep"""
+    lo, hi = T0 + MAXOFF, T1 - MAXOFF
+    if full:
+        return [(lo, hi)]
+    wins = []
+    for k in range(1, len(pieces)):
+        t = pieces[k][0] * 86400 + pieces[k][1]
+        b, a = pieces[k - 1][2], pieces[k][2]
+        wins.append((t + min(a, b) - halfwidth, t + max(a, b) + halfwidth + 60))
+    for _ in range(nrandom):
+        w = rnd.randrange(lo, hi - 60)
+        w -= w % 60
+        wins.append((w, w + 60))
+    wins = sorted((max(lo, a), min(hi, b)) for a, b in wins if min(hi, b) > max(lo, a))
+    merged = []
+    for a, b in wins:
+        if merged and a <= merged[-1][1]:
+            merged[-1] = (merged[-1][0], max(merged[-1][1], b))
+        else:
+            merged.append((a, b))
+    return merged
+
+
+def run_wall(exe, db, names_idx, windows, grid=60):
+    """windows: {zone: [(w0, w1)]}; returns {zone: [window records]}, crashes"""
+    zones = list(windows.keys())
+    nproc = common.NCPU
+    buckets = [zones[i::nproc] for i in range(nproc)]
+
+    def one(bucket):
+        inp = ''.join('%d %d %d %d\n' % (names_idx[z], a, b, grid) for z in bucket for a, b in windows[z])
+        rc, out, err, _ = common.run_cmd([exe, 'wall', db], input=inp, timeout=7200)
+        recs = [json.loads(l) for l in out.splitlines() if l.startswith('{')]
+        return bucket, rc, recs, err[-1500:]
+
+    inv = {i: z for z, i in names_idx.items()}
+    res = {z: [] for z in zones}
+    crashes = []
+    for bucket, rc, recs, err in common.tmap(one, [b for b in buckets if b]):
+        for r in recs:
+            res[inv[r['zi']]].append(r)
+        if rc != 0:
+            crashes.append((bucket, rc, err))
+    return res, crashes
+
+
+def check_wall(chk, exe, db, dbdir, policy, label, nrandom, full=False, grid=60):
+    import random
+    work = common.scratch('%s-wall-%s' % (chk.pid, label))
+    lines, links = dbsource.reconstruct(dbdir)
+    rules, zones, _ = tzparse.parse(lines)
+    allnames = list_zones(exe, db)
+    idx = {n: i for i, n in enumerate(allnames)}
+    names = [n for n in allnames if n in zones]
+    model_path = os.path.join(work, 'model.json')
+    tzparse.write_model(model_path, rules, zones, only=set(names))
+    zic, _msg = zicoracle.compile_and_dump(lines, names, work)
+    rnd = random.Random(common.seed() * 7919 + 17)
+    windows = {n: wall_windows(zic[n], rnd, nrandom, full=full) for n in names}
+    res, crashes = run_wall(exe, db, idx, windows, grid)
+    for bucket, rc, err in crashes:
+        chk.violation('%s:wall-crash' % label, 'forComponents sweep crashed rc=%s zones=%s... %s' % (rc, bucket[:3], err), {'zones': bucket})
+    wobs = {}
+    ncalls = 0
+    for n in names:
+        wobs[n] = [{'w0': r['w0'], 'w1': r['w1'], 'pieces': r['pieces']} for r in res[n]]
+        for r in res[n]:
+            ncalls += r['n']
+            if r['normfail']:
+                chk.violation('%s:%s:not-normalised' % (label, n), 'forComponents result is not normalised: %s' % r['normfail'], {'zone': n, 'detail': r['normfail']})
+    wobs['__none__'] = []
+    wall_path = os.path.join(work, 'wall.json')
+    json.dump(wobs, open(wall_path, 'w'))
+    tres = common.run_tlc('TzSem', 'TzSem_wall.cfg', env={'TZ_MODEL': model_path, 'TZ_WALL': wall_path, 'TZ_POLICY': policy, 'TZ_OBS': wall_path}, timeout=3000)
+    common.tlc_must_pass(tres, 'TzSem wall (%s)' % label)
+    verdicts = {v['wzone']: v for v in common.tlc_prints(tres.out) if isinstance(v, dict) and 'wzone' in v}
+    if set(verdicts) != set(names):
+        raise common.MachineryError('TLC judged %d zones for wall resolution, expected %d' % (len(verdicts), len(names)))
+    nwin = 0
+    for n in names:
+        v = verdicts[n]
+        nwin += v['nwin']
+        if v['nbad']:
+            f = v['first']
+            w = f[2] * 86400 + f[3]
+            chk.violation('%s:%s:resolve' % (label, n),
+                          '%d window(s) rejected; first: wall day %d sec %d -> code answers shift=%s off=%s err=%s, spec allows %s (policy %s)' % (
+                              v['nbad'], f[2], f[3], f[4], f[5], f[6], v['want'], policy),
+                          {'zone': n, 'db': db, 'wall_seconds_from_2000': w, 'got': f[4:], 'allowed': v['want']})
+    chk.add(states=tres.distinct, transitions=tres.generated, traces_validated_against_impl=len(names))
+    chk.add(**{'forComponents_calls_' + label: ncalls, 'windows_' + label: nwin, 'zones_' + label: len(names)})
+    ex = next((n for n in names if len(wobs[n]) > 3), names[0])
+    chk.sample({'zone': ex, 'db': db, 'policy': policy, 'window': wobs[ex][0] if wobs[ex] else None})
+    return wobs
